@@ -37,6 +37,9 @@ def gen_instances(rng, count):
     fixed = [
         (["a", "b", "c"], {"a": 3, "b": 2, "c": 2}, [(("b",), "identity", 1.0), (("b", "c"), "identity", 0.5), (("a", "b"), "identity", 2.0)]),
         (["a", "b", "c"], {"a": 2, "b": 2, "c": 3}, [(("c", "b"), "id+total", 1.0), (("b",), "twice", 0.5), (("a", "b"), "total", 1.0), (("b", "a"), "identity", 1.0)]),
+        # three-attribute projections in CYCLIC orders (a permutation that is not its own inverse), query omitted
+        (["a", "b", "c"], {"a": 2, "b": 3, "c": 2}, [(("b", "c", "a"), "none", 1.0), (("c", "a", "b"), "identity", 0.5)]),
+        (["a", "b", "c"], {"a": 2, "b": 2, "c": 2}, [(("c", "a", "b"), "none", 2.0), (("a", "b"), "identity", 1.0)]),
     ]
     for ord_, sz, ms in fixed:
         out.append(make_inst(rng, ord_, sz, ms))
@@ -47,7 +50,7 @@ def gen_instances(rng, count):
         nm = rng.randint(1, 4)
         ms = []
         for _ in range(nm):
-            proj = tuple(rng.sample("abc", rng.choice([1, 1, 2, 2, 2])))
+            proj = tuple(rng.sample("abc", rng.choice([1, 1, 2, 2, 2, 3])))
             ms.append((proj, rng.choice(KINDS), rng.choice([0.5, 1.0, 2.0])))
         if rng.random() < 0.3:
             ms.append((tuple(reversed(ms[0][0])), "identity", rng.choice([0.5, 1.0])))    # same attribute set, other order
@@ -164,7 +167,7 @@ def run(ctx, canary=False):
         e = exp.get(i)
         if e is None:
             continue
-        use = styles if (thorough or i <= 6) else [styles[0]] + rng.sample(styles[1:], 3)
+        use = styles if (thorough or i <= 8) else [styles[0]] + rng.sample(styles[1:], 3)
         for k, st in enumerate(use):
             # noise scaled by s: loss, gradient and smoothness constant scale by exactly 1/s^2 (L1 by 1/s); every third run is the
             # last of three calls on one warm-started engine
